@@ -7,6 +7,7 @@
 import Basyx.Lemmas.Codec
 import Basyx.Gen.JsonTable
 import Basyx.Gen.XmlTable
+import Basyx.Model.Select
 namespace Basyx.C18
 open Basyx.Codec Basyx.Gen.Json
 
@@ -82,5 +83,24 @@ def demoSm : Val :=
 example : enc jsonTable true demoSm = .obj (some "Submodel") [("id", .tok "urn:sm" false)] := by rfl
 example : (match enc jsonTable false demoSm with | .obj _ ms => ms.map (·.1) | _ => []) =
     ["id", "qualifiers", "submodelElements"] := by rfl
+
+/-! ### `stripped=` reaches the writer / reader that has this mode
+
+The strip theorems are about an encoder / decoder *with* the stripped flag.  Which class the file-level functions
+(`write_aas_json_file`, `object_store_to_json`, `read_aas_json_file[_into]`, `read_aas_xml_file[_into]`,
+`read_aas_xml_element`) use for `stripped=s` is decided by `_select_encoder` / `_select_decoder`; table and class flags are
+regenerated from the source on every run (`Gen/Select.lean`). -/
+
+/-- every row of the three selection functions returns a class whose `stripped` attribute (looked up along its method
+    resolution order) is the argument, for both values of the argument -/
+theorem c18_mode_selection :
+    Gen.Select.select.all (fun r => Select.flag false r.1 r.2.2.2 == some r.2.2.1) = true ∧ Select.selectTotal = true := by decide
+
+/-- in particular: the JSON writer functions render stripped exactly when asked to -/
+theorem c18_encoder_selected (s : Bool) :
+    ∃ c, ("json-enc", none, s, c) ∈ Gen.Select.select ∧ Select.flag false "json-enc" c = some s := by
+  cases s
+  · exact ⟨"AASToJsonEncoder", by decide, by decide⟩
+  · exact ⟨"StrippedAASToJsonEncoder", by decide, by decide⟩
 
 end Basyx.C18
